@@ -10,6 +10,7 @@ import LdpcV.Driver.C14
 import LdpcV.Driver.C04F
 import LdpcV.Driver.C13
 import LdpcV.Driver.C12
+import LdpcV.Driver.C16
 open LdpcV
 
 def dispatch (line : String) : String :=
@@ -34,6 +35,7 @@ def dispatch (line : String) : String :=
   | "c14" :: rest => Driver.C14.handle rest out
   | "c13" :: rest => Driver.C13.handle rest out
   | "c12" :: rest => Driver.C12.handle rest out
+  | "c16" :: rest => Driver.C16.handle rest out
   | _ => "BADLINE unknown-tag"
 
 partial def loop (h : IO.FS.Stream) (o : IO.FS.Stream) : IO Unit := do
